@@ -597,6 +597,9 @@ func withPolicies(tier string, jobs []reg.Job, cacheOK func(reg.Job) bool) []reg
 			if !ok && pb > 2 {
 				pb = 2 // without the cache the strict-priority policies cost as much as the base job: one deviation less
 			}
+			if v := j.Args["polcap"]; v != "" && atoiDef(v, pb) < pb {
+				pb = atoiDef(v, pb) // heavy jobs: the strict-priority policies to a smaller bound in the quick tier
+			}
 			out = append(out, clone(0, bound, j.Shards), clone(1, bound-1, 8), clone(2, pb, 4), clone(3, pb, 4), clone(4, bound-1+up, 4))
 		}
 	}
